@@ -321,4 +321,58 @@ def extraGet (m : SubMap) (g : String) : List String := (alookup g m).getD []
 def classifyExtra (m : SubMap) (glyphSets : List (Tag × List String)) : List (Tag × List String) :=
   glyphSets.map (fun sg => (sg.1, sg.2 ++ ((sg.2.flatMap (extraGet m)).eraseDups).filter (fun x => !sg.2.contains x)))
 
+/-! ### `kernFeatureWriter.mergeScripts`: cross-script kerning buckets that share a script are merged -/
+
+/-- a bucket key: a set of Unicode scripts (list without order; the harness compares sorted) -/
+abbrev SSet := List Tag
+
+def sdisjoint (a b : SSet) : Bool := a.all (fun x => !b.contains x)
+def sunion (a b : SSet) : SSet := a ++ b.filter (fun x => !a.contains x)
+
+/-- the `for scripts in rest:` loop: (grown `common`, buckets set aside as disjoint, merged?) -/
+def absorb : SSet → List SSet → SSet × List SSet × Bool
+  | common, [] => (common, [], false)
+  | common, s :: r =>
+    if sdisjoint s common then
+      let res := absorb common r
+      (res.1, s :: res.2.1, res.2.2)
+    else
+      let res := absorb (sunion common s) r
+      (res.1, res.2.1, true)
+
+/-- the inner `while sets:` loop (fuel = number of buckets) -/
+def mergePass : Nat → List SSet → List SSet × Bool
+  | 0, _ => ([], false)
+  | _ + 1, [] => ([], false)
+  | n + 1, c :: rest =>
+    let a := absorb c rest
+    let res := mergePass n a.2.1
+    (a.1 :: res.1, a.2.2 || res.2)
+
+/-- the outer `while merged:` loop -/
+def mergeLoop : Nat → List SSet → List SSet
+  | 0, sets => sets
+  | n + 1, sets =>
+    let r := mergePass sets.length sets
+    if r.2 then mergeLoop n r.1 else r.1
+
+def mergeSets (keys : List SSet) : List SSet :=
+  let sets := keys.filter (fun k => !k.isEmpty)
+  mergeLoop sets.length sets
+
+/-- second half of `mergeScripts`: every input bucket's pairs go to the FIRST merged bucket sharing a script -/
+def reassignOne (sets : List SSet) (k : SSet) : Option SSet := sets.find? (fun s => !sdisjoint s k)
+
+def reassign (sets : List SSet) : List (SSet × List Nat) → List (SSet × List Nat) → Except Err (List (SSet × List Nat))
+  | acc, [] => .ok acc
+  | acc, (k, ps) :: r =>
+    match reassignOne sets k with
+    | none => .error .assertion
+    | some b => reassign sets (acc.map (fun e => if e.1 == b then (e.1, e.2 ++ ps) else e)) r
+
+/-- `mergeScripts(kerningPerScript)`; pairs are abstract ids -/
+def mergeScripts (kps : List (SSet × List Nat)) : Except Err (List (SSet × List Nat)) :=
+  let sets := mergeSets (kps.map (·.1))
+  reassign sets (sets.map (fun s => (s, []))) kps
+
 end Ufo2ft.C20
